@@ -23,8 +23,8 @@ _CORPUS = {"examples": None, "snippets": None}
 
 def tier_params(tier):
     if tier == "thorough":
-        return {"cases": 2400, "schedules": 96, "snippets": "all", "wall_budget_s": 3300}
-    return {"cases": 300, "schedules": 24, "snippets": 60, "wall_budget_s": 600}
+        return {"cases": 2400, "schedules": 96, "snippets": "all", "inv_seeds": 10, "wall_budget_s": 3300}
+    return {"cases": 300, "schedules": 24, "snippets": 60, "inv_seeds": 4, "wall_budget_s": 600}
 
 
 SIMTYPES = "@SIMTYPES@"
@@ -192,7 +192,24 @@ def gen_case(rng, params, index):
         after = rng.sample([c for c in comps if c not in before], rng.weighted([(7, 0), (3, 1)]))
         scheds.append({"hash_seed": rng.randint(2, 1 << 40), "dirent_seed": rng.randint(2, 1 << 40), "env_pad": rng.randint(0, 4000),
                        "before": before, "after": after, "dup": rng.chance(0.12), "spell": rng.choice([source, "./" + source])})
-    return {"kind": "c08", "name": name, "files": files, "source": source, "no_dyn": no_dyn, "schedules": scheds, "extra_types": extra_types}
+    # whole invocations: the same argv (several sources, two of them faulty) under different seeds must give the same
+    # exit status, the same set of files with the same bytes, and the same diagnostics for every file
+    bads = []
+    for k in range(2):
+        d = docs.gen_doc(rng, want_dynamic=not no_dyn)
+        kinds = docs.plant_kinds(d)
+        kind, where, text = rng.choice(kinds)
+        d["plant"] = {"where": where, "text": text, "kind": kind}
+        rel = "bad/Bad%s.qml" % "AB"[k]
+        files["proj/" + rel] = docs.render(d)[0]
+        bads.append(rel)
+    invs = []
+    for k in range(2):
+        srcs = rng.sample(comps, min(len(comps), rng.randint(1, 2))) + [source] + rng.sample(bads, rng.randint(1, 2))
+        rng.shuffle(srcs)
+        invs.append({"sources": srcs, "seeds": [[rng.randint(2, 1 << 40), rng.randint(2, 1 << 40), rng.randint(0, 3000)] for _ in range(params.get("inv_seeds", 4))]})
+    return {"kind": "c08", "name": name, "files": files, "source": source, "no_dyn": no_dyn, "schedules": scheds, "extra_types": extra_types,
+            "invocations": invs}
 
 
 def _simtypes():
@@ -298,6 +315,47 @@ def run_case(case, env):
             _bump(probes, "schedules_with_documents_translated_before")
         if sc["dup"]:
             _bump(probes, "schedules_translating_the_same_source_twice")
+    # ---- whole-invocation determinism
+    import shutil as _sh
+    for ik, inv in enumerate(case.get("invocations", [])):
+        ref = None
+        for sk, (hs, ds, pad) in enumerate([[1, 1, 0]] + inv["seeds"]):
+            odir = os.path.join(sb.cwd, "out-inv")
+            _sh.rmtree(odir, ignore_errors=True)
+            step = {"op": "GEN", "sources": inv["sources"], "O": "out-inv", "no_dyn": case["no_dyn"], "no_lower": False,
+                    "extra_types": [_simtypes() if x == SIMTYPES else x for x in case.get("extra_types", [])],
+                    "hash_seed": hs, "dirent_seed": ds, "env_pad": pad}
+            res = sb.run(step)
+            stats["runs"] += 1
+            stats["sim_steps"]["syscalls_intercepted"] += len(res.calls)
+            tree = {}
+            for dp, dn, fn in os.walk(odir):
+                dn.sort()
+                for f in sorted(fn):
+                    p = os.path.join(dp, f)
+                    tree[os.path.relpath(p, odir)] = open(p, "rb").read()
+            blocks = c04.parse_diagnostics(res.stderr)
+            diags = sorted("\n".join(x.rstrip() for x in b["text"]).rstrip() for b in blocks)
+            obs = {"disp": res.disposition(), "files": tree, "diags": diags}
+            if ref is None:
+                ref = obs
+                _bump(probes, "whole_invocations_checked")
+                if res.exit_status != 0:
+                    _bump(probes, "whole_invocations_with_a_failing_source")
+                continue
+            desc = "invocation %s under hash_seed=%d dirent_seed=%d env_pad=%d vs the same argv under seed 1" % (inv["sources"], hs, ds, pad)
+            if obs["disp"] != ref["disp"]:
+                viol.append(V("determinism", "c08:invocation-exit-differs", "%s: %s vs %s" % (desc, obs["disp"], ref["disp"]), invocation=ik))
+            if sorted(obs["files"]) != sorted(ref["files"]):
+                viol.append(V("determinism", "c08:invocation-file-set-differs", "%s: files written %s vs %s" % (desc, sorted(obs["files"]), sorted(ref["files"])), invocation=ik))
+            else:
+                for f in sorted(obs["files"]):
+                    if obs["files"][f] != ref["files"][f]:
+                        viol.append(V("determinism", "c08:invocation-bytes-differ", "%s: %s differs\n%s" % (desc, f, _firstdiff(ref["files"][f], obs["files"][f])), invocation=ik))
+            if obs["diags"] != ref["diags"]:
+                a = [x for x in ref["diags"] if x not in obs["diags"]]
+                b = [x for x in obs["diags"] if x not in ref["diags"]]
+                viol.append(V("determinism", "c08:invocation-diagnostics-differ", "%s:\nonly under seed 1:\n%s\nonly here:\n%s" % (desc, "\n".join(a[:2]), "\n".join(b[:2])), invocation=ik))
     if len(orders) > 1:
         _bump(probes, "inputs_whose_diagnostic_order_varied_with_the_schedule")
     if base is not None:
